@@ -21,7 +21,7 @@ EXPLANATION = (
     "children. Consumption: convert_expr, convert_pattern, convert_math and convert_code_block with the mark symbolic: marked => the "
     "result is exactly text(source text of the node) and no other converter runs; unmarked => falls through to the ordinary "
     "conversion with the same context. Structural (same dump): convert_expr is the only caller of convert_expr_impl. That every "
-    "syntactic position reaches one of these four entry points, and how the renderer lays out multi-line text atoms, are outside the claim.")
+    "syntactic position reaches one of these four entry points, and how the renderer lays out multi-line text atoms, are outside the claim. Session 3: what counts as a directive is decided on comment texts of symbolic characters around the words.")
 
 ATTR_NAMES = ('is_format_disabled', 'has_comment', 'is_multiline', 'is_multiline_flavor')
 
